@@ -38,6 +38,9 @@ def gen_cases(r, tier, flavour):
                 iters = r.choice([2, 3, 4]) if n <= 8 else 2
                 cases.append("%s%d %d %d %d%s" % (flavour[0], i, n, iters, seed, " noprotect" if (flavour == "tsan" and i % 2 == 1) else ""))
                 i += 1
+    for n in ([1, 4, 16] if flavour == "asan" else [8]):                        # library lifetime: nested init/finalize, then scans whose mapped file is truncated
+        cases.append("%s%d L %d %d" % (flavour[0], i, n, r.randrange(0, 1000)))
+        i += 1
     for n in ([4, 16] if flavour == "asan" else [8]):                           # with one timing-out scan among the others (1.6 s each)
         cases.append("%s%d %d 2 %d" % (flavour[0], i, n, r.randrange(0, 1000) * 4 + 3))
         i += 1
@@ -97,6 +100,31 @@ def run(tier, replay=None):
         for l in out:
             cid = l.split(" ", 1)[0]
             f = dict(kv.split("=", 1) for kv in l.split(" ")[1:] if "=" in kv)
+            if cid == "END":
+                if f.get("finalize") != "OK":
+                    chk.violation("finalize_%s.json" % fl, {"kind": "library-lifetime", "engine": "conc", "harness": "h_conc", "flavour": fl, "cases": cases,
+                                                            "implementation": l, "model_spec": "library_alive_iff_referenced: the last yr_finalize finds the library alive and returns ERROR_SUCCESS"})
+                    found = True
+                continue
+            if " L " in l[:len(cid) + 3]:
+                hist["%s:lifetime:threads=%s" % (fl, f.get("n"))] += 1
+                nscans += 2 * int(f.get("n", "0")) + 1
+                nontrivial.add(byid.get(cid, cid).split(" ", 1)[1])
+                bad = []
+                if f.get("nested_init") != "OK" or f.get("nested_finalize") != "OK":
+                    bad.append("nested yr_initialize/yr_finalize returned %s/%s" % (f.get("nested_init"), f.get("nested_finalize")))
+                if f.get("fault_alone") != "COULD_NOT_MAP_FILE":
+                    bad.append("faulting scan run alone returned %s" % f.get("fault_alone"))
+                if not f.get("fault_after", "").endswith("other:0"):
+                    bad.append("holder_sees_library_alive: after another user dropped its reference, faulting scans of the remaining user gave %s (first other: %s) "
+                               "instead of COULD_NOT_MAP_FILE as when run alone" % (f.get("fault_after"), f.get("first_other")))
+                if f.get("handler_outside_bad") != "0":
+                    bad.append("old_handler_restored_at_zero: the application's SIGBUS handler was not in place afterwards")
+                if bad:
+                    chk.violation("lifetime_%s.json" % cid, {"kind": "library-lifetime", "engine": "conc", "harness": "h_conc", "flavour": fl, "case": byid.get(cid),
+                                                             "implementation": l, "model_spec": "; ".join(bad)})
+                    found = True
+                continue
             if "mismatch" not in f:
                 continue
             hist["%s:threads=%s" % (fl, f["n"])] += 1
@@ -124,6 +152,23 @@ def run(tier, replay=None):
                                                      "implementation": l, "model_spec": "; ".join(problems)})
                 found = True
         missing = [c for c in cases if c.split(" ", 1)[0] not in answered]
+        # leaks reported by LeakSanitizer at exit (exit code 99 with every case answered): listed findings are matched by the libyara function that allocated
+        leak_known = False
+        if fl == "asan" and rc == 99 and not missing and "LeakSanitizer" in err:
+            allocs = []
+            for blk in re.split(r"\n(?=(?:Direct|Indirect) leak of)", err):
+                if not blk.startswith(("Direct", "Indirect")):
+                    continue
+                fns = [f2 for f2, p2 in re.findall(r"#\d+ 0x[0-9a-f]+ in (\S+) (\S+)", blk) if "/libyara/" in p2 and f2 not in ("yr_malloc", "yr_calloc", "yr_realloc")]
+                ctx = "fault_scan" if " in fault_scan " in blk else "other"
+                allocs.append((fns[0] if fns else "-", ctx))
+            kl = [f for f in known if f["signature"].get("kind") == "memory-leak"]
+            unk = [a for a in allocs if not any(a[0] in f["signature"].get("functions", []) and a[1] == f["signature"].get("context") for f in kl)]
+            hist["asan-leak-blocks"] = len(allocs)
+            if allocs and not unk:
+                leak_known = True
+                chk.known(kl[0], "%s LeakSanitizer: %d leaked block group(s) allocated in %s by scans that ended with a memory fault" %
+                          (kl[0]["id"], len(allocs), "/".join(sorted({a[0] for a in allocs}))))
         reports = tsan_reports(err) if fl == "tsan" else []
         bysig = collections.defaultdict(list)
         for kind, fns, blk in reports:
@@ -140,7 +185,7 @@ def run(tier, replay=None):
                                                    "case": cases[0] if len(cases) == 1 else None, "cases": cases, "signature": {"kind": kind, "functions": list(fns)},
                                                    "implementation": blks[0], "model_spec": "no data race on shared state"})
                 found = True
-        if missing or (rc != 0 and not (fl == "tsan" and rc == 66 and reports)):
+        if missing or (rc != 0 and not (fl == "tsan" and rc == 66 and reports) and not leak_known):
             # the process died: with read-only rules a write to the shared rule set is a SEGV with a WRITE access in the sanitizer's report
             wr = "WRITE memory access" in err or "WRITE" in err
             chk.violation("died_%s.json" % fl, {"kind": "write-to-shared-rules" if wr else "harness-died", "engine": "conc", "harness": "h_conc", "flavour": fl,
